@@ -1588,3 +1588,9 @@ CASES += [
         };
         let low_bdd"""),
 ]
+
+CASES += [
+    dict(name="D12-composite-modulus", file="src/constants.rs", rule="NB", props=["C11", "C13"], expect="U64_LARGEST:is-prime",
+         old="""    pub const U64_LARGEST: u128 = 18_446_744_073_709_551_557;""",
+         new="""    pub const U64_LARGEST: u128 = 18_446_744_073_709_551_591;"""),
+]
